@@ -2,7 +2,7 @@
 Driver/C10 — runs the executable models of the in-memory and on-disk caches on protocol lines.
 
   begin mem|memc max=<n> bytes=<n>|none policy=lru|lfu|fifo|random|ttl dttl=long|short
-  begin disk|diskc dttl=long|short
+  begin disk|diskc dttl=long|short [sub=<levels 1..7>] [refuse=<k1,k2,…>]
   put <key> <hex> ev=auto|-|k1,k2,…        putttl <key> <hex> long|short ev=…
   get <key>   contains <key>   remove <key>   clear   size   stats   reopen (disk only)
   cleanup (memc / diskc only: one tick of the task `new_with_cleanup` / `new_with_background_tasks` spawns)
@@ -27,7 +27,8 @@ inductive St where
   | none
   /-- `task`: created by `new_with_cleanup` -/
   | mem (cfg : MemCache.Config) (x : Mem.XState) (task : Bool)
-  | disk (cfg : DiskCache.Config) (x : Disk.XState) (task : Bool)
+  /-- `refuse`: the keys whose file name the file system refuses (begin line, `refuse=`) -/
+  | disk (cfg : DiskCache.Config) (x : Disk.XState) (task : Bool) (refuse : List Nat)
 
 def kv (pre : String) (t : String) : Option String :=
   if t.startsWith pre then some (t.drop pre.length).toString else none
@@ -76,10 +77,42 @@ def parseFlag : String → Option Bool
 def showStats (n b : Int) (g h : Nat) (m : Int) : String :=
   toString n ++ " " ++ toString b ++ " " ++ toString g ++ " " ++ toString h ++ " " ++ toString m
 
+/-- the directory layout (`sub=<levels>`: hashed sub-directories, absent: flat) decides where a
+key's file lies, not what the cache answers: the model has one file per key either way (injectivity
+of key ↦ path is the stated assumption the run probes with near-colliding keys).  The token is
+checked (canonical decimal 1..7, as the harness does) and otherwise ignored. -/
+def parseSub (t : String) : Option Nat :=
+  match (kv "sub=" t).bind (fun v => v.toNat?.bind (fun n => if toString n == v then some n else none)) with
+  | some n => if 1 ≤ n && n ≤ 7 then some n else none
+  | none => none
+
+/-- `refuse=<k1,k2,…>` (canonical decimals, at least one): the keys of this history whose file
+the file system will not create — the key text's last path segment, or the temporary name derived
+from it, is longer than NAME_MAX.  A fact about key texts and the file system, computed by the
+harness from its key table; a put of such a key is `XOp.putRefused`. -/
+def parseRefuse (t : String) : Option (List Nat) :=
+  match kv "refuse=" t with
+  | some v =>
+    if v == "-" then none else
+    (parseKeys v).bind (fun l => if ",".intercalate (l.map toString) == v then some l else none)
+  | none => none
+
+def beginDisk (task : Bool) (dt : String) (sub : Option String) (refuse : Option String) : St × String :=
+  match (kv "dttl=" dt).bind parseClass, sub.map parseSub, refuse.map parseRefuse with
+  | _, some none, _ => (.none, "bad-op")
+  | _, _, some none => (.none, "bad-op")
+  | some dt, sub, refuse =>
+    let lv := match sub with | some (some lv) => lv | _ => 1
+    let rf := match refuse with | some (some l) => l | _ => []
+    if Disk.validate 1 none false false true lv then (.disk { defaultShort := dt } Disk.xinit task rf, "ok")
+    else (.none, "err:config")
+  | none, _, _ => (.none, "bad-op")
+
 def handle (st : St) (toks : List String) : St × String :=
   match toks with
   | ["begin", m, mx, by_, pol, dt] =>
-    if m != "mem" && m != "memc" then (st, "bad-op") else
+    -- a `begin` line always ends the running case; one that cannot be read leaves no case
+    if m != "mem" && m != "memc" then (.none, "bad-op") else
     match (kv "max=" mx).bind (·.toNat?), kv "bytes=" by_, (kv "policy=" pol).bind parsePolicy,
           (kv "dttl=" dt).bind parseClass with
     | some mx, some b, some pol, some dt =>
@@ -88,16 +121,17 @@ def handle (st : St) (toks : List String) : St × String :=
         -- the harness always configures a non-zero cleanup_interval
         if !Mem.validate mx mb false then (.none, "err:config") else
         (.mem { maxEntries := mx, maxBytes := mb, policy := pol, defaultShort := dt } Mem.xinit (m == "memc"), "ok")
-      | none => (st, "bad-op")
-    | _, _, _, _ => (st, "bad-op")
-  | ["begin", "disk", dt] =>
-    match (kv "dttl=" dt).bind parseClass with
-    | some dt => (.disk { defaultShort := dt } Disk.xinit false, "ok")
-    | none => (st, "bad-op")
-  | ["begin", "diskc", dt] =>
-    match (kv "dttl=" dt).bind parseClass with
-    | some dt => (.disk { defaultShort := dt } Disk.xinit true, "ok")
-    | none => (st, "bad-op")
+      | none => (.none, "bad-op")
+    | _, _, _, _ => (.none, "bad-op")
+  | ["begin", m, dt] =>
+    if m != "disk" && m != "diskc" then (.none, "bad-op") else beginDisk (m == "diskc") dt none none
+  | ["begin", m, dt, t] =>
+    if m != "disk" && m != "diskc" then (.none, "bad-op") else
+    if t.startsWith "sub=" then beginDisk (m == "diskc") dt (some t) none
+    else beginDisk (m == "diskc") dt none (some t)
+  | ["begin", m, dt, sub, rf] =>
+    if m != "disk" && m != "diskc" then (.none, "bad-op") else beginDisk (m == "diskc") dt (some sub) (some rf)
+  | "begin" :: _ => (.none, "bad-op")
   | ["validate", "mem", mx, b, cz] =>
     match mx.toNat?, parseBytes b, parseFlag cz with
     | some mx, some mb, some cz => (st, if Mem.validate mx mb cz then "ok" else "err:config")
@@ -140,10 +174,16 @@ def handle (st : St) (toks : List String) : St × String :=
     | ["cleanup"] =>
       if task then (.mem cfg (Mem.xstep cfg x .cleanup).1 task, "ok") else (st, "bad-op")
     | _ => (st, "bad-op")
-  | .disk cfg x task =>
+  | .disk cfg x task refuse =>
     let go (op : DiskCache.Op) : St × String :=
-      let (x', o) := Disk.xstep cfg x (.base op)
-      (.disk cfg x' task, match o with
+      -- a put of a key the file system refuses never reaches the index
+      let xop : Disk.XOp := match op with
+        | .put k v => if refuse.contains k then .putRefused k v else .base op
+        | .putTtl k v _ => if refuse.contains k then .putRefused k v else .base op
+        | _ => .base op
+      let (x', o) := Disk.xstep cfg x xop
+      (.disk cfg x' task refuse, match o with
+        | .err => "err"
         | .base .unit => "ok"
         | .base (.got .miss) => "none"
         | .base (.got (.hit v)) => "val " ++ showVal v
@@ -169,7 +209,7 @@ def handle (st : St) (toks : List String) : St × String :=
     | ["stats"] => go .stats
     | ["reopen"] => go .reopen
     | ["cleanup"] =>
-      if task then (.disk cfg (Disk.xstep cfg x .cleanup).1 task, "ok") else (st, "bad-op")
+      if task then (.disk cfg (Disk.xstep cfg x .cleanup).1 task refuse, "ok") else (st, "bad-op")
     | _ => (st, "bad-op")
 
 def main : IO Unit := do
